@@ -4,6 +4,7 @@
   Core only.
 -/
 import CogentModel.Gen.C18Gaps
+import CogentModel.Gen.C18Pog
 
 namespace CogentModel.C18Gen
 open CogentModel.GapMerge
@@ -176,5 +177,50 @@ theorem gen_gapsForInjection (other ref : Gaps) (seqlen : Int) :
 theorem gen_mergedGaps (a b : Gaps) : C18Gaps.mergedGaps a b = mergedGaps a b := by
   unfold C18Gaps.mergedGaps mergedGaps
   cases a <;> cases b <;> simp
+
+
+/-! ### `pog_traceback` (Gen/C18Pog.lean) = `Progressive.pogTraceback` -/
+section pog
+open CogentModel.Progressive
+
+theorem foldl_append_map {α β : Type} (f : α → β) (l : List α) (out : List β) :
+    l.foldl (fun out p => out ++ [f p]) out = out ++ l.map f := by
+  induction l generalizing out with
+  | nil => simp
+  | cons x r ih => simp [ih]
+
+theorem addSkipped_eq (d : Bool) (s e : Nat) (out : List Pos) :
+    C18Pog.addSkipped (if d then 1 else 0) s e out = out ++ skipped d s e := by
+  unfold C18Pog.addSkipped skipped C18Pog.addAligned
+  rw [foldl_append_map (fun p => C18Pog.setDim (if d then 1 else 0) (some p) (none, none))]
+  cases d <;> simp [C18Pog.setDim]
+
+theorem gen_pog_loop (n1 n2 : Nat) (l : List Pos) (u0 u1 : Nat) (out : List Pos) :
+    (C18Pog.pogTraceback_loop l (u0, u1, out)).2.2
+        ++ skipped false (C18Pog.pogTraceback_loop l (u0, u1, out)).1 n1
+        ++ skipped true (C18Pog.pogTraceback_loop l (u0, u1, out)).2.1 n2
+      = out ++ pogLoop n1 n2 l u0 u1 := by
+  induction l generalizing u0 u1 out with
+  | nil => simp [C18Pog.pogTraceback_loop, pogLoop]
+  | cons p r ih =>
+    obtain ⟨a, b⟩ := p
+    have h0 := addSkipped_eq false
+    have h1 := addSkipped_eq true
+    simp only [Bool.false_eq_true, if_false, if_true] at h0 h1
+    cases a <;> cases b <;>
+      simp only [C18Pog.pogTraceback_loop, pogLoop, skipTo, nextUpto, C18Pog.addAligned, h0, h1, ih] <;> simp
+
+theorem gen_pogTraceback (n1 n2 : Nat) (ap : List Pos) :
+    C18Pog.pogTraceback n1 n2 ap = pogTraceback n1 n2 ap := by
+  have h0 := addSkipped_eq false
+  have h1 := addSkipped_eq true
+  simp only [Bool.false_eq_true, if_false, if_true] at h0 h1
+  unfold C18Pog.pogTraceback pogTraceback
+  simp only [h0, h1]
+  have := gen_pog_loop n1 n2 ap 0 0 []
+  simpa using this
+
+
+end pog
 
 end CogentModel.C18Gen
